@@ -33,8 +33,57 @@ static void op_end(const char* name, int pure) {
 }
 #define OP(name, pure, stmt) do { op_begin(); stmt; op_end(name, pure); } while (0)
 
+/* every single request of a load (and of a copy of its result) refused in turn, alone and together with all later ones:
+ * whatever the error path releases goes back through the installed free, once; nothing goes to the C library */
+static void c13_refuse_every_request(const unsigned char* in, size_t n, int every) {
+  struct cbor_load_result r;
+  long r0 = va.requests;
+  cbor_item_t* it = NULL;
+  OP("load", 0, it = cbor_load(in, n, &r));
+  long nreq = va.requests - r0;
+  for (int mode = VA_ONLY; mode <= VA_FROM; mode++)
+    for (long k = 0; k < nreq; k++) {
+      if (!every && k != (long)vh_randn((uint64_t)nreq)) continue;
+      va_fault_mode = mode;
+      va_fault_k = va.requests + k;
+      cbor_item_t* f = NULL;
+      OP("load_with_refusal", 0, f = cbor_load(in, n, &r));
+      va_fault_mode = VA_NONE;
+      if (f) OP("decref", 0, cbor_decref(&f));
+    }
+  if (it) {
+    r0 = va.requests;
+    cbor_item_t* cp = NULL;
+    OP("copy", 0, cp = cbor_copy(it));
+    long creq = va.requests - r0;
+    if (cp) OP("decref", 0, cbor_decref(&cp));
+    for (int mode = VA_ONLY; mode <= VA_FROM; mode++)
+      for (long k = 0; k < creq; k++) {
+        if (!every && k != (long)vh_randn((uint64_t)creq)) continue;
+        va_fault_mode = mode;
+        va_fault_k = va.requests + k;
+        cbor_item_t* f = NULL;
+        OP("copy_with_refusal", 0, f = cbor_copy(it));
+        va_fault_mode = VA_NONE;
+        if (f) OP("decref", 0, cbor_decref(&f));
+      }
+    OP("decref", 0, cbor_decref(&it));
+  }
+}
+
 static void c13_iteration(long i) {
   static unsigned char buf[8192], out[8192], m[8192];
+  if (i == 0) {
+    static const char* corpus[] = {"00", "1818", "20", "3903e7", "40", "4401020304", "60", "6161", "63616263", "5f4101420203ff", "7f6161626263ff", "5fff", "7fff", "80", "8301820203f6",
+                                   "9f0102ff", "9fff", "a0", "a10102", "a1616101", "a26161016162820203", "bf616101ff", "bfff", "c101", "c1820102", "d81863616263", "c1c1c100",
+                                   "f93c00", "fa3fc00000", "fb3ff8000000000000", "f6", "f5", "826161c16162", "a161618161627f6161ff", "bf6161bf6162c14101ffff", "85010203040506"};
+    for (size_t c = 0; c < sizeof corpus / sizeof *corpus; c++) {
+      size_t cn = 0;
+      for (const char* p = corpus[c]; p[0] && p[1]; p += 2) { unsigned v; sscanf(p, "%2x", &v); m[cn++] = (unsigned char)v; }
+      c13_refuse_every_request(m, cn, 1);
+    }
+    fprintf(vh_out, "{\"e\":\"quiet\",\"live\":%ld,\"foreign\":%ld}\n", va.live, va.foreign_free + va.foreign_realloc);
+  }
   size_t n = vg_encoding(buf, 2048, 1 + (int)vh_randn(5));
   /* sometimes corrupt it: error paths release too */
   if (i % 3 == 1 && n > 1) { memcpy(m, buf, n); m[vh_randn(n)] ^= (unsigned char)(1u << vh_randn(8)); memcpy(buf, m, n); }
@@ -93,6 +142,7 @@ static void c13_iteration(long i) {
   }
   /* a refused allocation inside an operation: error paths release what they obtained, once */
   if (i % 2 == 1) {
+    c13_refuse_every_request(buf, n, 0);
     static const unsigned char grow[] = {0xbf, 0x01, 0x02, 0x03, 0x04, 0x05, 0x06, 0x07, 0x08, 0x09, 0x0a, 0xff, 0x9f, 0x01, 0x02, 0x03, 0x04, 0x05, 0xff};
     for (int which = 0; which < 2; which++) {
       const unsigned char* in = which ? grow + 12 : grow;
